@@ -69,6 +69,7 @@ func H_C04_matmul() {
 	da, db := drawMatMulShapes(vrt.Param("ra"), vrt.Param("rb"), vrt.Param("maxdim"))
 	a, ae := mk("x", da, vrt.Bool("ta"))
 	b, be := mk("y", db, vrt.Bool("tb"))
+	maybeUsedTogether(a, b)
 	y, err := a.MatMul(b)
 	vrt.Assert("valid matmul accepted", err == nil)
 	if err != nil {
@@ -90,6 +91,7 @@ func H_C04_dot() {
 	db := append(append([]int{}, lb...), n)
 	a, ae := mk("x", da, vrt.Bool("ta"))
 	b, be := mk("y", db, vrt.Bool("tb"))
+	maybeUsedTogether(a, b)
 	y, err := a.Dot(b)
 	vrt.Assert("valid dot accepted", err == nil)
 	if err != nil {
@@ -133,6 +135,7 @@ func H_C04_identities() {
 	da, db := drawMatMulShapes(vrt.Param("ra"), vrt.Param("ra"), vrt.Param("maxdim"))
 	a, ae := mk("x", da, false)
 	b, _ := mk("y", db, false)
+	maybeUsedTogether(a, b)
 	ra := len(da)
 	n := da[ra-1]
 	eye, err := tensor.Eye(n, nil)
